@@ -491,6 +491,12 @@ func (*Ufs) Read(req *SrvReq) {
 			}
 		}
 
+		if count < 0 || tc.Offset > uint64(len(fid.dirents)) {
+			/* offset beyond the listing or inside an entry */
+			req.RespondError(Ebadoffset)
+			return
+		}
+
 		copy(rc.Data, fid.dirents[tc.Offset:int(tc.Offset)+count])
 
 	} else {
